@@ -828,6 +828,25 @@ func c18NoCopy(c *Ctx) {
 			if bo.Op == token.EQL {
 				t = b.Succs[1]
 			}
+			// `case a || b:` evaluates the disjunction as a value: the edge leads to a
+			// block that tests a phi which is the constant true on this edge
+			if len(t.Instrs) > 0 {
+				if if2, isIf := t.Instrs[len(t.Instrs)-1].(*ssa.If); isIf {
+					if ph, isPhi := if2.Cond.(*ssa.Phi); isPhi && ph.Block() == t {
+						for i, pred := range t.Preds {
+							if pred == b {
+								if k, isC := ph.Edges[i].(*ssa.Const); isC && k.Value != nil {
+									if k.Value.ExactString() == "true" {
+										t = t.Succs[0]
+									} else {
+										t = t.Succs[1]
+									}
+								}
+							}
+						}
+					}
+				}
+			}
 			refuses := false
 			if len(t.Instrs) > 0 {
 				if ret, isRet := t.Instrs[len(t.Instrs)-1].(*ssa.Return); isRet && len(ret.Results) == 1 {
